@@ -84,7 +84,7 @@ def runScenario (m : List (String × String)) : String :=
   | none => "error unknown-pipeline"
   | some p0 =>
     match Scenario.ofSpec substr p0 (specOf p0 m) with
-    | none => "error unknown-channel"
+    | none => "error unresolved-name"
     | some sc =>
       let e := sc.explore
       (if e.truncated then "TRUNCATED " else "") ++ String.intercalate " | " e.finals
@@ -98,7 +98,7 @@ def runWf (name : String) : String :=
 
 /-- a full-pipeline line: after the deadline and the grace period nothing of the pipeline is left and
     the channels handed to the caller are closed — that is what the general theorems give when the
-    regenerated IR has no violation of W0–W5 (`pipeline_terminates_and_never_crashes`) -/
+    regenerated IR has no violation of W0–W5 (`pipeline_can_always_terminate_and_never_crashes`) -/
 def runFull (m : List (String × String)) : String :=
   match Gen.Pipes.all.find? (·.name == look m "p") with
   | none => "error unknown-pipeline"
